@@ -120,7 +120,11 @@ def build(rng: random.Random, kind: str):
         top = rng.choice([50, 50, 20000]) if dtype in ("int16", "int32") else 50  # every bin fits the type, running sums may not
         freq = np.array([rng.randint(0, top) for _ in range(int(np.prod(shape)))]).reshape(shape).astype(dtype)
     else:
-        freq = np.array([rng.randint(0, 400) / 8 for _ in range(int(np.prod(shape)))]).reshape(shape).astype(dtype)
+        if dtype == "float32" and rng.random() < 0.3:
+            # every bin is a float32, their running sum / total is a number (2**24 + 1 + 1 is not lost)
+            freq = np.array([rng.choice([2.0**24, 1.0, 1.0, 3.0, 0.0]) for _ in range(int(np.prod(shape)))]).reshape(shape).astype(dtype)
+        else:
+            freq = np.array([rng.randint(0, 400) / 8 for _ in range(int(np.prod(shape)))]).reshape(shape).astype(dtype)
     if gapped:
         freq = freq.astype("float64")
     kw = {}
